@@ -56,6 +56,7 @@ type asmReplayer struct {
 	keepMod     uint64 // keep a case when hash%keepMod==0 (1 = all)
 	sharedFiles map[string][]string
 	nontriv     func(cs *AsmCase) bool
+	onOutput    func(cs *AsmCase, out string) // called with every successfully generated regex
 }
 
 func (c *Ctx) newAsmReplayer(keepMod uint64, cliEvery int64) (*asmReplayer, error) {
@@ -310,6 +311,9 @@ func (r *asmReplayer) replay(cs AsmCase) error {
 	verdict, obs, err := r.verdictFor(&cs, root, false)
 	if err != nil {
 		return err
+	}
+	if r.onOutput != nil && obs.Fail == "" {
+		r.onOutput(&cs, obs.Out)
 	}
 	if n <= 3 {
 		r.c.addSample(map[string]any{"program": cs.Lines, "flags": cs.Flags, "expect": cs.Expect, "expected_language": cs.Lang,
